@@ -242,6 +242,9 @@ var checks = map[string]*check{
 			// client reattached to the same process (cmdrunner's pid polling): detection time, calls, Ping, Kill
 			// a stopped plugin, the host announcing brokered listeners until one announcement waits inside the broker's control
 			// stream (no flow-control window left), then the process dies
+			// crash point "before the handshake is complete": the process prints part of a line, a rejected or accepted line,
+			// or a line and two more lines of text, and exits by itself
+			{Name: "dies-before-handshake", Kind: "explore", Scen: "start_line", Inst: inst("dies", "dies-thorough"), BatchN: 200, Depths: depths([]int{0}, []int{0}), Budget: budget(3*time.Minute, 15*time.Minute)},
 			{Name: "wedged-then-dead", Kind: "explore", Scen: "wedged_plugin", Depths: depths([]int{0, 1}, []int{0, 1, 2}), Budget: budget(3*time.Minute, 15*time.Minute)},
 			{Name: "real-processes", Kind: "enum", Bin: "e3.test", Test: "TestC03Proc"},
 			{Name: "conformance", Kind: "conform", Scen: "crash_plugin"},
